@@ -686,11 +686,15 @@ class Gen:
         return ops
 
 
-def generate(seed, profile_name, tie=None, overrides=None):
+def generate(seed, profile_name, tie=None, overrides=None, catching=False):
+    """catching: the engine that will run the model catches exceptions thrown on purpose by workload callbacks and
+    carries on (only engine_line does); otherwise no such callbacks are generated."""
     rng = random.Random(core.stable_int('model', seed, profile_name))
     prof = profile(profile_name)
     if overrides:
         prof.update(overrides)
+    if not catching:
+        prof['p_raise_finish'] = 0
     spec = Gen(rng, prof).generate(seed)
     spec['profile'] = profile_name
     if overrides and overrides.get('decimal'):
